@@ -284,6 +284,41 @@ class C02(Prop):
                 extra.append({'op': 'quiet', 'checks': rng.choice([1, 2])})
             pos = rng.randrange(len(ops) + 1)
             ops[pos:pos] = extra
+        if rng.random() < 0.2:
+            # hooks around signals, stops and reaps that veto, fail or raise:
+            # a stop still has to leave nothing behind
+            for wc in cfg['watchers']:
+                if rng.random() < 0.7:
+                    wc['hooks'] = gen.gen_hooks(
+                        rng, names=('before_signal', 'after_signal',
+                                    'before_stop', 'after_stop',
+                                    'before_reap', 'after_reap'),
+                        p=0.4, bad_p=0.5)
+            if rng.random() < 0.5:
+                # a worker removed by an earlier operation (decr, set) and a
+                # stop afterwards: whatever the hooks answered, nothing of
+                # the watcher may be left running
+                wi = rng.randrange(len(cfg['watchers']))
+                if rng.random() < 0.6:
+                    # the hard case: nobody obeys and the hook vetoes
+                    wc = cfg['watchers'][wi]
+                    wc['mix'] = [m for m in wc['mix'] if m.get('label') in
+                                 ('stubborn', 'selective')] or \
+                        [{'p': 1, 'label': 'stubborn', 'ignore': 'all'}]
+                    wc.setdefault('hooks', {})['before_signal'] = {
+                        'script': [rng.choice(['false', 'false', 'raise'])
+                                   for _ in range(12)], 'ignore': False}
+                ops.extend([
+                    {'op': 'req', 'cmd': rng.choice(['decr', 'set']),
+                     'w': wi, 'props': {}, 'waiting': True, 'place': 'now'},
+                    {'op': 'quiet', 'checks': 1},
+                    {'op': 'req', 'cmd': 'stop', 'w': wi, 'props': {},
+                     'waiting': True, 'place': 'now'},
+                    {'op': 'quiet', 'checks': 1}])
+                if ops[-4]['cmd'] == 'set':
+                    ops[-4]['props'] = {'options': {'numprocesses': 0}}
+                else:
+                    ops[-4]['props'] = {'nb': rng.choice([1, 2, 5])}
         for op in ops:
             if op['op'] == 'req' and op['cmd'] == 'set' and \
                     rng.random() < 0.5:
